@@ -193,6 +193,7 @@ impl SimReader {
 
 impl Read for SimReader {
     fn read(&mut self, buf: &mut [u8]) -> io::Result<usize> {
+        let _seam_alloc = crate::alloc_meter::Exclude::new();
         let mut log = self.log.borrow_mut();
         log.calls += 1;
         if log.calls > self.budget {
@@ -305,6 +306,7 @@ impl SimBufReader {
 
 impl BufRead for SimBufReader {
     fn fill_buf(&mut self) -> io::Result<&[u8]> {
+        let _seam_alloc = crate::alloc_meter::Exclude::new();
         let mut log = self.log.borrow_mut();
         log.calls += 1;
         if log.calls > self.budget {
@@ -377,6 +379,7 @@ impl BufRead for SimBufReader {
     }
 
     fn consume(&mut self, amt: usize) {
+        let _seam_alloc = crate::alloc_meter::Exclude::new();
         let amt = amt.min(self.avail_end - self.pos);
         self.pos += amt;
         self.log.borrow_mut().delivered += amt;
@@ -385,6 +388,7 @@ impl BufRead for SimBufReader {
 
 impl Read for SimBufReader {
     fn read(&mut self, buf: &mut [u8]) -> io::Result<usize> {
+        let _seam_alloc = crate::alloc_meter::Exclude::new();
         let n = {
             let avail = self.fill_buf()?;
             let n = avail.len().min(buf.len());
